@@ -6,7 +6,9 @@ from synq import show, pat_alts, pat_head, last_seg
 
 
 class Unknown(Exception):
-    pass
+    def __init__(self, msg, atom=None):
+        super().__init__(msg)
+        self.atom = atom
 
 
 def ev(node, atom, inl, depth=0):
@@ -65,7 +67,7 @@ def ev(node, atom, inl, depth=0):
         txt = inl.show(node)
         v = atom(txt)
     if v is None:
-        raise Unknown("atom " + txt[:80])
+        raise Unknown("atom " + txt[:80], atom=txt)
     return v
 
 
@@ -180,3 +182,28 @@ def leaf(node, atom, inl, depth=0):
         if init is not None and init.get("k") in ("if", "match", "block"):
             return leaf(init, atom, inl, depth + 1)
     return node
+
+
+def rows(cond, inl, fixed, max_free=6):
+    """Truth table of `cond`: atoms for which `fixed(text)` gives a value are fixed, every other atom met during evaluation is enumerated.
+    -> [({free atom text: value}, value of cond)]"""
+    import itertools
+    free = []
+    for _ in range(max_free + 1):
+        try:
+            out = []
+            for vals in itertools.product((True, False), repeat=len(free)):
+                env = dict(zip(free, vals))
+
+                def atom(t, env=env):
+                    t = t.replace(" ", "")
+                    v = fixed(t)
+                    return v if v is not None else env.get(t)
+                out.append((env, ev(cond, atom, inl)))
+            return out
+        except Unknown as e:
+            a = (e.atom or "").replace(" ", "")
+            if not a or a in free or len(free) >= max_free:
+                raise
+            free.append(a)
+    raise Unknown("too many free atoms")
